@@ -21,7 +21,7 @@ Require Import UPV.Core.Expr UPV.Core.Eval.
 Local Open Scope nat_scope.
 
 Record cfg := {
-  obj_ty : N -> N;                       (* Object.type *)
+  obj_ty : N -> option N;                (* Object.type (None: an object the table does not know) *)
   par_ty : N -> option N;                (* Parameter.type when it is a user type *)
   fl_ty : N -> option N;                 (* Fluent.type when it is a user type *)
   if_ty : N -> option N;                 (* InterpretedFunction.return_type when it is a user type *)
@@ -147,7 +147,7 @@ Definition walk_sometime_after (a b : expr) : expr :=
 (* FNode.type restricted to user types *)
 Definition user_type_of (G : cfg) (e : expr) : option N :=
   match e with
-  | EObj o => Some (obj_ty G o)
+  | EObj o => obj_ty G o
   | EVar _ ty => Some ty
   | EParam p => par_ty G p
   | EFluent f _ => fl_ty G f
